@@ -106,9 +106,11 @@ theorem fused_getM (hv : ValidArr a) (hok : GroupsOk groups a.ndim) {ns : Sector
     ∧ ∀ s offs, s.length = a.ndim → offs.length = a.ndim →
         permuted s (giM a groups).perm = expandK a groups ns i →
         permuted offs (giM a groups).perm = expandJ a groups ns i →
-        B.get i = (match alookup a.blocks s with
+        (B.get i = (match alookup a.blocks s with
           | some b => b.get offs
-          | none => 0) := by
+          | none => 0))
+        ∧ (∀ b, alookup a.blocks s = some b →
+            inBox (permuted b.shape (giM a groups).perm) (permuted offs (giM a groups).perm) = true) := by
   have hinv := fusedBlocksM_inv hv hok
   obtain ⟨sb0, hsb0, hns0, hBs⟩ := fusedBlockM_info hv hok hB
   subst hns0
@@ -228,6 +230,9 @@ theorem fused_getM (hv : ValidArr a) (hok : GroupsOk groups a.ndim) {ns : Sector
   · obtain ⟨sb, hsb, rfl⟩ := hstored
     rw [alookup_of_mem_nodup hv.nodup hsb]
     simp only
+    suffices hmain : B.get i = sb.2.get offs
+        ∧ inBox (permuted sb.2.shape (giM a groups).perm) (permuted offs (giM a groups).perm) = true by
+      exact ⟨hmain.1, fun b hb => by simp only [Option.some.injEq] at hb; subst hb; exact hmain.2⟩
     obtain ⟨hnsb, hseg⟩ := hkey sb hsb hK
     have hshape := blockShape?_length (hv.blk sb hsb).2.1
     have hshl : sb.2.shape.length = a.ndim := by rw [hshape.2]; exact (hv.blk sb hsb).1
@@ -376,10 +381,8 @@ theorem fused_getM (hv : ValidArr a) (hok : GroupsOk groups a.ndim) {ns : Sector
       exact ravel_three (List.range groups.length) ms (fun g => unravel (ms g) (r g)) _ _ _ _ (by simp)
         (fun g _ => unravel_length _ _)
     rw [hsrc]
-    apply transposeK_get_permuted sb.2 hshl hol
-    · intro ax hax; rw [mem_perm (hokD hok), duals_length]; exact hax
-    · intro p hp; rw [← duals_length]; exact (mem_perm (hokD hok)).1 hp
-    · rw [hJ', hTshape, inBox_append (by simp [flatten_map_length_eq (List.range groups.length)
+    have hbox : inBox (permuted sb.2.shape (giM a groups).perm) (permuted offs (giM a groups).perm) = true := by
+      rw [hJ', hTshape, inBox_append (by simp [flatten_map_length_eq (List.range groups.length)
           (fun g => unravel (ms g) (r g)) ms (fun g _ => unravel_length _ _)]),
         inBox_append (by simp)]
       have h1 : inBox ((List.range (giM a groups).position).map (fun x => sb.2.shape.getD x 0))
@@ -408,6 +411,9 @@ theorem fused_getM (hv : ValidArr a) (hok : GroupsOk groups a.ndim) {ns : Sector
         rw [planOf_newShape_after _ _ _ _ (hokD hok) hj] at this
         exact this
       rw [h1, h2, h3]; rfl
+    refine ⟨transposeK_get_permuted sb.2 hshl hol ?_ ?_ hbox, hbox⟩
+    · intro ax hax; rw [mem_perm (hokD hok), duals_length]; exact hax
+    · intro p hp; rw [← duals_length]; exact (mem_perm (hokD hok)).1 hp
   · -- the sector is not stored: the fused entry was never written
     have hnone : alookup a.blocks s = none := by
       rw [alookup_eq_none_iff]
@@ -416,6 +422,7 @@ theorem fused_getM (hv : ValidArr a) (hok : GroupsOk groups a.ndim) {ns : Sector
       exact hstored ⟨sb, hsb, rfl⟩
     rw [hnone]
     simp only
+    refine ⟨?_, fun b hb => by cases hb⟩
     have hbox0 : inBox (shapeOfM a groups (planM a groups sb0).newSector) i = true := by
       have : shapeOfM a groups (planM a groups sb0).newSector = BshM a groups sb0 := by
         simp [shapeOfM, shape_storedM hv hok hsb0]
